@@ -281,6 +281,15 @@ def make_ref(expr):
     # because it is used as a part of a parent expression, however,
     # we'll skip registering such names.
     if ref_name is None:
+        if expr.kind != "constant":
+            # An auto-generated name must not coincide with a name
+            # that stands for another expression, for instance, a
+            # user variable called abs_x next to abs(x).
+            autos = expr.context.__dict__.setdefault("_auto_ref_owners", {})
+            other = expr.context._ref_values.get(ref)
+            while (other is not None and other is not expr) or autos.setdefault(ref, expr) is not expr:
+                ref = f"{ref}_{expr.intkey}"
+                other = expr.context._ref_values.get(ref)
         return ref
 
     return expr.context._register_reference(expr, ref)
